@@ -75,9 +75,10 @@ def main():
 def finish(meta, src, name):
     d = V / 'harmless' / name
     d.mkdir(parents=True, exist_ok=True)
-    for f in ('patch.diff', 'notes.md'):
-        if (src / f).exists() and (src / f).resolve() != (d / f).resolve():
-            shutil.copy(src / f, d / f)
+    if src.resolve() != d.resolve():
+        for f in src.iterdir():
+            if f.is_file() and f.name != 'meta.json' and f.stat().st_size < 400000:
+                shutil.copy(f, d / f.name)
     (d / 'meta.json').write_text(json.dumps(meta, indent=1))
     print(name, 'confirmed_harmless=%s' % meta.get('confirmed_harmless'), 'false_alarms=%s' % meta.get('false_alarms'))
     for p in meta.get('false_alarms', []):
